@@ -26,6 +26,12 @@ const FOREIGN_ITEM_ATTRS: &[&str] = &[
     "#[deprecated(note = \"x\")]",
     "#[cfg_attr(test, allow(unused))]",
     "#[svx::error(E)]",
+    // attributes that mention what the macros themselves emit or consume
+    "#[allow(clippy::new_without_default)]",
+    "#[allow(clippy::new_without_default, overflowing_literals)]",
+    "#[allow(clippy::too_many_arguments, clippy::new_without_default, dead_code)]",
+    "#[cfg_attr(not(feature = \"library\"), allow(clippy::new_without_default))]",
+    "#[doc = \"#[sv::msg(exec)] in a doc string\"]",
 ];
 const FOREIGN_FN_ATTRS: &[&str] = &[
     "#[inline]",
@@ -37,6 +43,8 @@ const FOREIGN_FN_ATTRS: &[&str] = &[
     "#[track_caller]",
     "#[other::attr(serde(skip))]",
     "#[msg(exec)]",
+    "#[allow(clippy::new_without_default, unused_variables)]",
+    "#[doc = \"sv::msg(query)\"]",
 ];
 const PARAM_ATTRS: &[&str] = &["#[serde(default)]", "#[allow(unused)]", "#[doc = \"p\"]", "#[cfg_attr(test, allow(unused))]", "#[serde(rename = \"z\")]"];
 const VIS: &[&str] = &["", "pub ", "pub(crate) ", "pub(super) "];
